@@ -17,15 +17,18 @@ import (
 	"verifharness/universe"
 )
 
-const rule = "streams: (1) known-finding witnesses and corpus (npm/testdata universes, all roots, + recorded shrunk cases); " +
-	"(2) npm/testdata read live through verifx, every version as root; (3) small-scope random universes (2-4 packages, 1-3 versions); " +
-	"(4) random universes per the quantifier (5-12 packages, 1-5 versions incl. prereleases, Blocked, latest/next/beta dist-tags, " +
-	"regular/Opt/Dev/peer-/bundle-scoped requirements, every operator kind incl. hyphen, x-ranges, ||, tags, unsatisfiable and " +
-	"unparsable ones, scoped and mixed-case names; cycles and version conflicts arise from uniform target choice), alias-free and " +
-	"with KnownAs aliases (alias names colliding with package names included), and with bundled (derived) packages; every version of every " +
-	"universe is resolved as root. A case is distinct by its op line; non-trivial = resolution returned a graph with at least one edge, " +
-	"counted by distinct result line. Universes satisfy U1-U3. The op line carries the model's fuel (queue pops): 2+|edges| of Go's " +
-	"own graph when Go finishes (a run pops at most 1+|edges| times), 80 when Go hits its 1 s deadline."
+const rule = "streams: (1) known-finding witnesses and corpus (npm/testdata universes incl. the bundle and alias ones, all roots; witnesses; " +
+	"recorded disagreements); (2) npm/testdata read live through verifx, every version as root; (3) small-scope random universes " +
+	"(2-4 packages, 1-3 versions), every version as root; (4) random universes per the quantifier (5-12 packages, 1-5 versions incl. " +
+	"prereleases, Blocked, latest/next/beta dist-tags, regular/Opt/Dev/peer-/bundle-scoped requirements and the duplicates package.json " +
+	"allows across its sections, every operator kind incl. hyphen, x-ranges, ||, tags, unsatisfiable and unparsable ones, scoped and " +
+	"mixed-case names; cycles and version conflicts arise from uniform target choice), one third with KnownAs aliases (alias names " +
+	"colliding with package names included), one eighth with optional peer/bundle-scoped requirements; (5) the same plus bundled " +
+	"(derived) packages: bundle content two levels deep, copies missing from the registry, copies installed under another name, " +
+	"requirements the bundled copy does or does not satisfy. Quick tier: 12 random roots per universe of streams 4-5; thorough: every " +
+	"version. One `classify` op per universe evaluates the theorems' hypotheses on both sides. A case is distinct by its op line; " +
+	"non-trivial = resolution returned a graph with at least one edge, counted by distinct result line. Universes satisfy U1-U3. " +
+	"The op line carries the model's fuel (queue pops): 2+|edges| of Go's own graph when Go finishes, 80 when Go hits its 1 s deadline."
 
 // deadline of one resolution; a hit is the result `timeout`.
 const deadline = 1 * time.Second
